@@ -37,8 +37,9 @@ RndProj(r)  == [st |-> r.st, cur |-> r.cur, nreq |-> IF r.st = "idle" THEN 0 ELS
 ObsRnd(o)   == [p \in Peers |-> RndProj(o.rnd[p])]
 
 ResetAll ==
-    /\ store'  = [p \in Peers |-> [i \in Ids |-> [has |-> i \in Special, hd |-> {}, del |-> "none"]]]
+    /\ store'  = [p \in Peers |-> [i \in Ids |-> [has |-> i \in Special /\ p \notin NoSpace, hd |-> {}, del |-> "none"]]]
     /\ idx'    = [p \in Peers |-> [i \in Ids |-> ViewE(store'[p][i], i)]]
+    /\ space'  = [p \in Peers |-> p \notin NoSpace]
     /\ phash'  = idx'
     /\ pend'   = [p \in Peers |-> <<>>]
     /\ online' = [p \in Peers |-> TRUE]
@@ -60,6 +61,7 @@ TrAct ==
            [] e.a = "IndexApply"   -> IndexApply(e.p) /\ Head(pend[e.p]).id = e.i
            [] e.a = "RoundBegin"   -> RoundBegin(e.p)
            [] e.a = "RoundCheck"   -> RoundCheck(e.p)
+           [] e.a = "RoundPush"    -> RoundPush(e.p)
            [] e.a = "RoundDiff"    -> RoundDiff(e.p)
            [] e.a = "RoundApply"   -> RoundApply(e.p)
            [] e.a = "TreeSync"     -> TreeSync([f |-> e.p, t |-> e.q, i |-> e.i, k |-> e.c])
@@ -72,7 +74,7 @@ TrCmp ==
                    /\ [p \in Peers |-> RndProj(rnd[p])] = ObsRnd(o)
                    /\ \A p \in Peers : o.hashok[p]
        IN  /\ \A p \in Peers : Len(pend[p]) = o.pendn[p]       \* the queue contents cannot be adopted: reject
-           /\ online = ObsOnline(o)
+           /\ online = ObsOnline(o) /\ space = [p \in Peers |-> o.space[p]]
            /\ drift' = IF same THEN drift ELSE drift + 1
            /\ idx'   = ObsIdx(o)
            /\ phash' = [p \in Peers |-> IF o.hashok[p] THEN idx'[p] ELSE [i \in Ids |-> {"stale"}]]
@@ -81,7 +83,7 @@ TrCmp ==
            /\ rnd'   = [p \in Peers |-> IF RndProj(rnd[p]) = ObsRnd(o)[p] THEN rnd[p]
                                         ELSE [IdleRound EXCEPT !.st = o.rnd[p].st, !.cur = o.rnd[p].cur, !.nreq = o.rnd[p].nreq]]
     /\ phase' = "act" /\ l' = l + 1
-    /\ UNCHANGED <<pend, online, budget, clean>>
+    /\ UNCHANGED <<pend, online, space, budget, clean>>
 
 TraceInit == Init /\ l = 1 /\ phase = "act" /\ drift = 0
 TraceNext == TrAct \/ TrCmp
@@ -101,7 +103,7 @@ Call == Trace[l].out
 ObsDeletedNeverRequested == (phase = "cmp" /\ Trace[l].a = "RoundApply") => Call.tombhit = <<>>
 ObsEqualHashNoTraffic    == (phase = "cmp" /\ Trace[l].a = "RoundApply" /\ Call.nreq = 1) =>
                                (Call.missing = <<>> /\ Call.existing = <<>> /\ ~Call.acl /\ ~Call.kv)
-ObsCheckSound == (phase = "cmp" /\ Trace[l].a = "RoundCheck" /\ Call.res # "fail") =>
+ObsCheckSound == (phase = "cmp" /\ Trace[l].a = "RoundCheck" /\ Call.res \in {"equal", "differs"}) =>
                     \* the state is still the prediction: rnd says what equal / different indexes imply
                     (Call.res = "equal") = (rnd[Trace[l].p].st = "apply")
 
